@@ -1941,6 +1941,18 @@ def _std(self, fn, st, b, t, cn, last, args, dargs, targ, summ, chain, tctrl):
         if last in ("saturating_sub",) and ints(0, 1):
             a, c = dargs[0], dargs[1]
             return mk(max(a["lo"] - c["hi"], 0), max(a["hi"] - c["lo"], 0), targ)
+        if last == "saturating_add" and ints(0, 1) and r and dargs[0]["lo"] >= 0 and dargs[1]["lo"] >= 0:
+            # min(a + b, MAX): named like the exact sum — a bound K < MAX established on the result is a bound on a + b
+            a, c = dargs[0], dargs[1]
+            tag = None
+            if a.get("s") is not None and c.get("s") is not None:
+                sa, sb = a["s"], c["s"]
+                if repr(sb) < repr(sa):
+                    sa, sb = sb, sa
+                tag = ("Add", sa, sb)
+                if tag_depth(tag) > 4:
+                    tag = None
+            return mk(min(a["lo"] + c["lo"], r[1]), min(a["hi"] + c["hi"], r[1]), targ, s=tag)
         if last in ("checked_sub", "checked_add", "checked_mul") and ints(0, 1):
             op = {"checked_sub": "Sub", "checked_add": "Add", "checked_mul": "Mul"}[last]
             inner = dty.split("Option<", 1)[-1].rstrip(">")
